@@ -326,7 +326,8 @@ func runC06(c *Check) {
 		}
 		for _, g := range p.Calls(M, fnGetSwitch) {
 			if ok, _ := fa.PrecededBy(pCall, func(in ssa.Instruction) bool { return in == g.(ssa.Instruction) }); ok {
-				c.Req(g.Common().Args[1] == rec, name, p.InstrPos(g), "read-record", "the record processed is the one read from the request key", "")
+				_, gargs := recvArgs(g)
+				c.Req(len(gargs) == 1 && gargs[0] == rec, name, p.InstrPos(g), "read-record", "the record processed is the one read from the request key", "")
 			}
 		}
 		// parking branch under light maintenance
